@@ -90,6 +90,21 @@ class Lowerer:
             for i, lc in self.insts("List"):
                 out = ("ite", ("eq", x, ("c", lc)), ("ne", ("v", f"lst.len[{i}]"), ("c", 0)), out)
             return out
+        if k == "qlen":
+            return self.sel(self.lx(e[1]), [(c, f"q.len[{i}]") for i, c in self.insts("Queue")], ("c", 0))
+        if k == "qfront":
+            return self.sel(self.lx(e[1]), [(c, f"q.item[{i}][0]") for i, c in self.insts("Queue")])
+        if k == "mapget":
+            from .py2ts import MAP_KEYS
+
+            mp, key, comp = self.lx(e[1]), self.lx(e[2]), e[3]
+            out = ("c", UNSET)
+            for i, mc in self.insts("Map"):
+                for j in range(MAP_KEYS):
+                    out = ("ite", ("and", ("eq", mp, ("c", mc)), ("eq", key, ("c", INT0 + j))), ("v", f"map.val[{i}][{j}]#{comp}"), out)
+            return out
+        if k == "maptuple":
+            return self.lx(e[1][0])
         if k == "lsttop":
             l = self.lx(e[1])
             out = ("c", UNSET)
@@ -115,7 +130,7 @@ class Lowerer:
         err = self.m.errors_var
         if k == "v":
             return [(lhs[1], self.lx(val))]
-        v = self.lx(val) if k not in ("lst.pop",) else None
+        v = self.lx(val) if k not in ("lst.pop", "q.pop") else None
         if k == "fld":
             obj = self.lx(lhs[1])
             pairs = self.field_vars(lhs[2])
@@ -158,6 +173,44 @@ class Lowerer:
                 ov = ("or", ov, ("and", ("eq", l, ("c", lc)), ("le", ("c", self.comp.list_cap), ("v", f"lst.len[{i}]"))))
             out = [o for o in out if not o[0].startswith(err + "#")]
             out.append((err, ("ite", ov, ("c", 1), ("v", err))))
+            return out
+        if k == "q.put":
+            q = self.lx(lhs[1])
+            out = []
+            cap = self.comp.list_cap
+            ov = ("c", 0)
+            for i, qc in self.insts("Queue"):
+                here = ("eq", q, ("c", qc))
+                ln = ("v", f"q.len[{i}]")
+                for p in range(cap):
+                    var = f"q.item[{i}][{p}]"
+                    out.append((var, ("ite", ("and", here, ("eq", ln, ("c", p))), v, ("v", var))))
+                out.append((f"q.len[{i}]", ("ite", here, ("add", ln, ("c", 1)), ln)))
+                ov = ("or", ov, ("and", here, ("le", ("c", cap), ln)))
+            out.append((err, ("ite", ov, ("c", 1), ("v", err))))
+            return out
+        if k == "q.pop":
+            q = self.lx(lhs[1])
+            out = []
+            cap = self.comp.list_cap
+            for i, qc in self.insts("Queue"):
+                here = ("eq", q, ("c", qc))
+                ln = ("v", f"q.len[{i}]")
+                for p in range(cap):
+                    var = f"q.item[{i}][{p}]"
+                    nxt = ("v", f"q.item[{i}][{p + 1}]") if p + 1 < cap else ("c", UNSET)
+                    out.append((var, ("ite", here, nxt, ("v", var))))
+                out.append((f"q.len[{i}]", ("ite", here, ("sub", ln, ("c", 1)), ln)))
+            return out
+        if k == "map.set":
+            from .py2ts import MAP_KEYS
+
+            mp, key, comp = self.lx(lhs[1]), self.lx(lhs[2]), lhs[3]
+            out = []
+            for i, mc in self.insts("Map"):
+                for j in range(MAP_KEYS):
+                    var = f"map.val[{i}][{j}]#{comp}"
+                    out.append((var, ("ite", ("and", ("eq", mp, ("c", mc)), ("eq", key, ("c", INT0 + j))), v, ("v", var))))
             return out
         if k == "lst.pop":
             l = self.lx(lhs[1])
